@@ -76,6 +76,15 @@ Theorem c19_set : forall c t be rs, Forall small rs -> Forall wf_bytes rs ->
      set_iter be inner = nodup_by (spec_equals c t) [] rs).
 Proof. exact set_full. Qed.
 
+(* RdataSetOwned::insert (src/rr/rdata_set.rs:135-146) on a set holding [kept]: the RDATA is
+   appended, and `true` returned, iff no member equals it; iteration order is insertion order. *)
+Theorem c19_insert : forall c t be kept r inner' flag,
+  Forall small kept -> Forall wf_bytes kept -> small r -> wf_bytes r ->
+  set_insert be c t (inner_of be kept) r = Ok (inner', flag) ->
+  set_iter be inner' = (if flag then kept ++ [r] else kept) /\
+  flag = negb (existsb (fun y => spec_equals c t r y) kept).
+Proof. exact set_insert_iter. Qed.
+
 (* Regression witness: the code before the fix: commit is not symmetric. *)
 Theorem c19_sym_refuted_prefix :
   equals_prefix 1 2 [1; 97; 0]%N [1; 97; 0; 9]%N = Ok true /\
@@ -119,4 +128,5 @@ Print Assumptions c19_total.
 Print Assumptions c19_laws.
 Print Assumptions c19_octetwise.
 Print Assumptions c19_set.
+Print Assumptions c19_insert.
 Print Assumptions c19_sym_refuted_prefix.
